@@ -156,7 +156,7 @@ theorem parseRelMapFile_total (bs : Bytes) : ∃ r, Model.parseRelMapFile bs = .
         split
         · exact ⟨_, rfl⟩
         · rw [hr]
-          simp (disch := omega) only [uN_ok, ok_bind]
+          simp only [ok_bind]
           exact ⟨_, rfl⟩
 
 /-- a page with the sequence magic whose only tuple is 23 bytes long with t_hoff = 0 -/
